@@ -47,6 +47,11 @@ Definition add (now jitter : Z) (r : record) (c : cache) : cache * list sigsnap 
     if rearm then (mkCache es (Some t0) (timer_start now (t0 - now)), sg)
     else (mkCache es (c_next c) (c_timer c), sg).
 
+(* whether addRecord (re)starts the timer: the condition guarding timer.start() *)
+Definition add_rearms (now jitter : Z) (r : record) (c : cache) : bool :=
+  negb (r_ttl r =? 0)%N &&
+  match c_next c with None => true | Some n => hd now (triggers now jitter (r_ttl r)) <? n end.
+
 Definition lookup (name : bstr) (type : N) (c : cache) : list record :=
   filter (cache_lookup_match name type) (map e_rec (c_entries c)).
 
